@@ -237,6 +237,33 @@ def run(chk, replay=None):
     d = isolated(chk, "operands back to back in one allocation", drive_adjacent, (quick,), timeout=900)
     if d:
         events += d["events"]
+    # page-protection observer: the same replays in a process where every operand ends at an inaccessible page and every operand a
+    # call only reads is write-protected during the call (a source that is modified and restored before return faults too)
+    import json
+    import os
+    import subprocess
+    from common import workdir, VERIF
+    try:
+        wd = workdir("c18-pages")
+        cf = os.path.join(wd, "cases.json")
+        r5 = run_tlc("Normalize", "Normalize_gen.cfg", workers=1, name="c18-normgen", timeout=900)
+        tlc_must_pass(r5, "Normalize gen")
+        json.dump({"limb": sub, "norm": printed_json(r5, "CASE"), "vmp": vcases, "programs": programs[:(40 if quick else 400)],
+                   "pointwise": printed_json(r, "CASE")}, open(cf, "w"))
+        p = subprocess.run(["python3-vt", os.path.join(VERIF, "tools", "pages_phase.py"), chk.tier, cf], capture_output=True, text=True,
+                           env=dict(os.environ, VERIF_PAGES="1"), timeout=3000, cwd=VERIF)
+        last = p.stdout.strip().splitlines()[-1] if p.stdout.strip() else ""
+        try:
+            out = json.loads(last)
+        except ValueError:
+            raise Infra("the page-protection phase did not report: rc=%s\n%s" % (p.returncode, (p.stdout + p.stderr)[-3000:]))
+        chk.cov["page_protection_observer"] = {"ran": True, "evaluations": out["evaluations"], "distinct": out["distinct"]}
+        chk.evals += out["evaluations"]
+        for desc, payload in out["violations"][:10]:
+            chk.violation("with read-only sources and operands ending at an inaccessible page: " + desc, payload)
+    except subprocess.TimeoutExpired:
+        chk.notes.append("page-protection observer timed out (not a verdict)")
+        chk.cov["page_protection_observer"] = {"ran": False, "why": "timeout"}
     # direction B
     clean = [{k: v for k, v in ev.items() if not k.startswith("_")} for ev in events]
     bad, results = validate_events("FrameTrace", "FrameTrace.cfg", clean, "c18", nproc=8, timeout=900)
